@@ -14,6 +14,7 @@ struct Child {
   simnet::FdTable table;            // the child's descriptors (0/1/2 present only if redirected to a simulated pipe end)
 };
 void setPipeCapacity(size_t bytes);
+void setStdinReadable(bool readable);       // whether the simulated process's own descriptor 0 counts as readable in select()
 void setChildMain(void (*fn)(Child*));     // scripted program run by every exec'ed child (harness-supplied); sets c->exitCode
 const std::vector<Child*>& allChildren();
 Child* findChild(int pid);
